@@ -11,3 +11,22 @@ package apiutils
 //@   ensures [C07] err == nil ==> tableUsable(r.db, sid(sum))
 //@   ensures [C17] err != nil ==> tblSet == old(tblSet)
 //@   crash-invariant [C13] R3(r.db)
+
+// A commit is accepted only when all of its parents are already stored (R2 is kept at the write).
+//@ func (*ObjectReceiver).saveCommit
+//@   props C07 C13 C17
+//@   requires r.db != nil && R2(r.db) && r.expectedCommits != nil
+//@   modifies comSet, r.ReceivedCommits, r.ReceivedCommits[:], r.expectedCommits
+//@   ensures [C07] err == nil ==> member2(comSet, r.db, sid(sum)) && forall(i, 0, nparents(sid(sum)), member2(comSet, r.db, parentOf(sid(sum), i)))
+//@   ensures [C17] err != nil ==> comSet == old(comSet)
+//@   crash-invariant [C13] R2(r.db)
+//@   loop 1 invariant forall(j, 0, iter, member2(comSet, r.db, sid(com.Parents[j]))) && comSet == old(comSet)
+//@   loop 1 decreases len(com.Parents) - iter
+
+// A block is stored only after its bytes validated; nothing is written for a rejected block.
+//@ func (*ObjectReceiver).saveBlock
+//@   props C07 C13 C17
+//@   requires r.db != nil
+//@   modifies blkSet, r.buf
+//@   ensures [C07] err == nil ==> member2(blkSet, r.db, sid(sum))
+//@   ensures [C17] err != nil ==> blkSet == old(blkSet)
